@@ -186,10 +186,12 @@ Definition step (s : sstate) (o : op) : sstate * trace :=
   if negb (st_alive s) then (s, TNone) else
   match o with
   | Scan i sc nr =>
-      (* a new scan: yr_notebook_create overwrites matches_notebook (scanner.c 503), required_eval is
-         re-initialised (509), nothing else is reset *)
-      let leaked := match st_notebook s with Some _ => S (st_leaked s) | None => st_leaked s end in
-      let res := residue_of s in
+      (* a new scan: what an abandoned scan left behind (one that returned ERROR_BLOCK_NOT_READY and was
+         not resumed) is discarded first -- _yr_scanner_clean_matches + yr_notebook_destroy when
+         matches_notebook != NULL (scanner.c 506-513, since fix 8a2210d); required_eval is re-initialised;
+         nothing else is reset *)
+      let leaked := st_leaked s in
+      let res := match st_notebook s with Some _ => no_residue | None => residue_of s end in
       let ep := match st_ep s with Some e => Some e | None => in_ep (st_flags s) i end in
       let nat := oracle (st_flags s) (st_timeout s) i (st_objs s) ep res in
       match nr with
@@ -252,9 +254,9 @@ Definition step (s : sstate) (o : op) : sstate * trace :=
           st_required := st_required s; st_notebook := st_notebook s; st_last_error := st_last_error s;
           st_pool := st_pool s; st_susp := st_susp s; st_leaked := st_leaked s |}, TRes rc)
   | Destroy =>
-      (* scanner.c 333-375: pools, objects_table with its objects, the six arrays, the struct.
-         matches_notebook is not among them. *)
-      let leaked := match st_notebook s with Some _ => S (st_leaked s) | None => st_leaked s end in
+      (* scanner.c 333-380: pools, objects_table with its objects, the notebook of a scan that still
+         waits (since fix 8a2210d), the six arrays, the struct *)
+      let leaked := st_leaked s in
       ({| st_alive := false; st_ep := None; st_fsize := None; st_flags := 0; st_timeout := 0;
           st_objs := []; st_mods := []; st_rule_flags := []; st_ns_unsat := []; st_disabled := [];
           st_matches := []; st_unconfirmed := []; st_required := []; st_notebook := None;
@@ -273,19 +275,15 @@ Fixpoint run (s : sstate) (h : list op) : sstate * list trace :=
 Definition is_setting (o : op) : bool :=
   match o with SetFlags _ | SetTimeout _ | PokeTimeout _ | Define _ _ => true | _ => false end.
 
-(* the histories the partial theorems speak about, decided by running the model:
-   - no new scan and no destroy while a scan waits for a block (an abandoned suspension),
-   - no define that crashes (NULL string), *)
+(* the histories the theorems speak about, decided by running the model: no define that crashes
+   (NULL string handed to yr_scanner_define_string_variable) *)
 Fixpoint hist_ok (s : sstate) (h : list op) : bool :=
   match h with
   | [] => true
   | o :: t =>
-      let ok := match o, st_susp s with
-                | Scan _ _ _, Some _ => false
-                | Destroy, Some _ => false
-                | Resume _, None => false
-                | Define x d, _ => match snd (scanner_define (st_objs s) x d) with RCrash => false | _ => true end
-                | _, _ => true
+      let ok := match o with
+                | Define x d => match snd (scanner_define (st_objs s) x d) with RCrash => false | _ => true end
+                | _ => true
                 end in
       if ok then hist_ok (fst (step s o)) t else false
   end.
